@@ -258,6 +258,17 @@ pub fn all() -> Vec<CheckDef> {
             assumptions: &["process-crash model inside Memvid::open's recovery, nested up to depth 3; the uninterrupted recovery of the same image is the reference"],
             want_probes: &["recoveries_recorded", "nested_crash_images"],
         },
+        CheckDef {
+            id: "C05",
+            level: "exploration",
+            quick_s: 30,
+            thorough_s: 300,
+            gen: crate::walsim::gen_c05,
+            run: crate::walsim::run_c05,
+            rule: "seeded short histories of append/checkpoint/stats/scan/reopen/read-only-view/power-loss-reopen on the real EmbeddedWal over regions of 96..4096 bytes and 64 KiB, with payload sizes steered so that the write head stops within 48 bytes of the region end, exactly at the end, or exactly fills the ring; each process batches several hundred such runs; a run is non-trivial iff it acknowledged an append and then checkpointed or reopened; distinct = distinct (region bucket, counts of appends/rejections/checkpoints/reopens, head-near-end, head-at-end, wraps) classes",
+            assumptions: &["vector-of-records model; the caller persists the header at every checkpoint (as Memvid does)", "the property's own text asks for exhaustive exploration of small regions: this check samples (deterministic simulation), it does not enumerate"],
+            want_probes: &["wal_head_within_48_of_end", "wal_head_exactly_at_end", "wal_wraps", "wal_appends_rejected_full", "wal_dirty_reopens"],
+        },
     ]
 }
 
